@@ -302,6 +302,7 @@ func c08Wire(c *Ctx) {
 	c.Res.Traces++
 	c.RunCases(cases)
 	c08Reconnect(c)
+	c08BeforeConnect(c)
 }
 
 // c08Reconnect: a line of caller text is cut short by the end of the connection (the peer stops reading in the middle of it
@@ -347,6 +348,56 @@ func c08Reconnect(c *Ctx) {
 		if want := "NICK me\r\nUSER ident 12 * :Real Name\r\n"; raw != want {
 			c.SpecFail("spec", desc, "", fmt.Sprintf("the new connection's first bytes are %q ; the client was asked to send nothing on it but its registration %q", trunc(raw, 120), want),
 				map[string]interface{}{"op": "cut-line-then-reconnect", "text_hex": drv.H(text), "cut": cut, "wire_hex": drv.H(raw)})
+		}
+	}
+}
+
+// c08BeforeConnect: command methods called on a client that has never connected (such a call waits - for ever, as the
+// library stands - for a queue that does not exist yet; it is made from goroutines of its own). Whatever becomes of those
+// lines once the client does connect and is welcomed, nothing on the wire is a line made of caller text alone.
+func c08BeforeConnect(c *Ctx) {
+	for k := 0; k < c.Pick(1, 4); k++ {
+		desc := "Privmsg / Join / Notice with CR and LF in their arguments called before the first Connect, then Connect, 001, and a PING round trip"
+		c.Journal("C08 " + desc)
+		url, conns := memconn.Listen()
+		cfg := client.NewConfig("me", "ident", "Real Name")
+		cfg.Server, cfg.Proxy, cfg.Flood, cfg.PingFreq = "irc.test", url, true, 0
+		conn := client.Client(cfg)
+		go conn.Privmsg("#chan", "hello\r\nQUIT :injected")
+		go conn.Join("#chan\nOPER root hunter2")
+		go conn.Notice("someone", "bye\rNICK stolen")
+		time.Sleep(5 * time.Millisecond)
+		if conn.Connect() != nil {
+			c.Res.Inconclusive++
+			continue
+		}
+		var srv *memconn.Conn
+		select {
+		case srv = <-conns:
+		case <-time.After(3 * time.Second):
+			c.Res.Inconclusive++
+			continue
+		}
+		s2 := &session{conn: conn, srv: srv}
+		srv.SendLine(":irc.test 001 me :Welcome me!ident@host")
+		s2.sync(5 * time.Second)
+		time.Sleep(10 * time.Millisecond)
+		raw := srv.Raw()
+		conn.Close()
+		c.Res.Traces++
+		c.Res.Evaluations++
+		c.Dist("before-first-connect")
+		bad := ""
+		for _, l := range strings.Split(strings.TrimSuffix(raw, "\r\n"), "\r\n") {
+			switch {
+			case strings.ContainsAny(l, "\r\n"):
+				bad = fmt.Sprintf("a line on the wire contains a bare CR or LF: %q", l)
+			case strings.HasPrefix(l, "QUIT") || strings.HasPrefix(l, "OPER") || strings.HasPrefix(l, "NICK stolen"):
+				bad = fmt.Sprintf("a line on the wire is made of caller text alone: %q", l)
+			}
+		}
+		if bad != "" {
+			c.SpecFail("spec", desc, "", bad, map[string]interface{}{"op": "before-first-connect", "wire_hex": drv.H(raw)})
 		}
 	}
 }
